@@ -232,6 +232,19 @@ impl AvroDataType {
         field
     }
 
+    /// Returns an arrow [`Field`] for a record field, array item or map value of this type.
+    ///
+    /// A plain Avro `null` at such a site only ever holds nulls, so the Arrow field has to be
+    /// nullable (union branches keep the nullability of their encoding).
+    pub(crate) fn site_field_with_name(&self, name: &str) -> Field {
+        let field = self.field_with_name(name);
+        if matches!(self.codec, Codec::Null) {
+            field.with_nullable(true)
+        } else {
+            field
+        }
+    }
+
     /// Returns a reference to the codec used by this data type
     ///
     /// The codec determines how Avro data is encoded and mapped to Arrow data types.
@@ -582,7 +595,7 @@ pub(crate) struct AvroField {
 impl AvroField {
     /// Returns the arrow [`Field`]
     pub(crate) fn field(&self) -> Field {
-        self.data_type.field_with_name(&self.name)
+        self.data_type.site_field_with_name(&self.name)
     }
 
     /// Returns the [`AvroDataType`]
@@ -925,11 +938,14 @@ impl Codec {
                 DataType::Dictionary(Box::new(DataType::Int32), Box::new(DataType::Utf8))
             }
             Self::List(f) => {
-                DataType::List(Arc::new(f.field_with_name(Field::LIST_FIELD_DEFAULT_NAME)))
+                DataType::List(Arc::new(
+                    f.site_field_with_name(Field::LIST_FIELD_DEFAULT_NAME),
+                ))
             }
             Self::Struct(f) => DataType::Struct(f.iter().map(|x| x.field()).collect()),
             Self::Map(value_type) => {
-                let val_field = value_type.field_with_name(Field::MAP_VALUE_FIELD_DEFAULT_NAME);
+                let val_field =
+                    value_type.site_field_with_name(Field::MAP_VALUE_FIELD_DEFAULT_NAME);
                 DataType::Map(
                     Arc::new(Field::new(
                         Field::MAP_ENTRIES_FIELD_DEFAULT_NAME,
